@@ -50,7 +50,7 @@ Proof. vm_compute. split; reflexivity. Qed.
 (* actor 0 blocks with timeout 10 and is cancelled; the socket stays; actor 1 blocks on it at time 2 with timeout 10 *)
 Definition w2 :=
   [Start 0 1 Rd true (Some 10) [] 4; Step 0 0; Step 0 0; Step 0 0; Sub 0 false; Sub 0 false; Sub 0 false; Sub 0 false; Sub 0 false;
-   CancelSet 0; CancelIo 0; CancelTake 0; Resume 0; Step 0 0;                         (* actor 0 ends with Canceled *)
+   CancelSet 0; CancelIo 0; CancelTake 0; CancelNull 0; Resume 0; Step 0 0;           (* actor 0 ends with Canceled *)
    Tick 2;
    Start 1 1 Rd true (Some 10) [] 4; Step 1 0; Step 1 0; Step 1 0; Sub 1 false; Sub 1 false; Sub 1 false; Sub 1 false; Sub 1 false;
    Tick 8; SelFire 1 0; SelMark 1; SelHnd 1].                                         (* the old entry fires at 10 *)
@@ -62,7 +62,7 @@ Proof. eexists. split; [vm_compute; reflexivity|]. cbn. repeat split. lia. Qed.
 
 (* with the repair the cancel disarms the timer: the old entry is ignored *)
 Example cancel_disarms_after_repair :
-  match runp true true true (firstn 26 w2) with      (* ... up to and including the expiry of the old entry *)
+  match runp true true true (firstn 27 w2) with      (* ... up to and including the expiry of the old entry *)
   | Some s => tev (T s 0) = None /\ tmr s 1 = Some 1 /\ Sel s 1 = SIdle /\ apara (A s 1) = false /\ co s 1 = Some 1
   | None => False end.
 Proof. vm_compute. repeat split. Qed.
